@@ -24,6 +24,8 @@ def collect():
             continue
         for tc in root.iter('testcase'):
             tid = (tc.get('classname') or '') + '::' + (tc.get('name') or '')
+            # some test ids contain the path of the repository directory
+            tid = tid.replace(os.path.realpath(repo), '/repo')
             bad = any(c.tag in ('failure', 'error') for c in tc)
             skipped = any(c.tag == 'skipped' for c in tc)
             if bad: failed.add(tid)
@@ -60,6 +62,7 @@ if missing:
     root = ET.parse(out + '/junit_retry.xml').getroot()
     for tc in root.iter('testcase'):
         tid = (tc.get('classname') or '') + '::' + (tc.get('name') or '')
+        tid = tid.replace(os.path.realpath(repo), '/repo')
         if any(c.tag in ('failure', 'error') for c in tc): rf.add(tid)
         elif not any(c.tag == 'skipped' for c in tc): rp.add(tid)
     missing = sorted(m for m in missing if m not in rp)
